@@ -168,7 +168,9 @@ public:
     explicit kernel_2d_adaptor(std::size_t center_y, std::size_t center_x)
         : center_(center_x, center_y)
     {
-        BOOST_ASSERT(center_.y < this->size() && center_.x < this->size());
+        // The size is not known here: kernel_2d_fixed sets square_size after this constructor
+        // has run and checks the center then. An assertion against size() at this point
+        // compared with 0 and failed for every center.
     }
 
     kernel_2d_adaptor(std::size_t size, std::size_t center_y, std::size_t center_x)
@@ -311,6 +313,7 @@ public:
         parent_t(center_y, center_x)
     {
         this->square_size = Size;
+        BOOST_ASSERT(center_y < Size && center_x < Size);
     }
 
     template <typename FwdIterator>
@@ -318,6 +321,7 @@ public:
         : parent_t(center_y, center_x)
     {
         this->square_size = Size;
+        BOOST_ASSERT(center_y < Size && center_x < Size);
         detail::copy_n(elements, Size * Size, this->begin());
     }
 
